@@ -160,7 +160,17 @@ def _gen_cases(ctx, n):
         if api in ("image_sample_grid", "batch_sample_grid", "SampleImage", "AlignImage", "TransformImage", "itk"):
             t0 = _tgt(rng, D, s0)
             tg = [t0]
-            if per_image:
+            if per_image and rng.random() < .5:
+                # ONE shared target for images on different grids; half of the time it is the grid of image 0 (the "already
+                # on the target grid" shortcut must not return the batch unsampled)
+                if rng.random() < .5:
+                    tg = [dict(s0)]
+                    for s_ in srcs[1:]:   # keep the other images close so that the target overlaps them
+                        s_["center"] = [c + rng.choice([-0.5, 0.25, 0.75]) for c in s0["center"]]
+                else:
+                    for s_ in srcs[1:]:
+                        s_["center"] = [c + rng.choice([-0.5, 0.25, 0.75]) for c in s0["center"]]
+            elif per_image:
                 for k in range(1, N):
                     t = _tgt(rng, D, srcs[k])
                     t["size"] = t0["size"]
@@ -251,7 +261,7 @@ def correspondence(ctx):
     n_eval = 0
     for i, (c, r) in enumerate(zip(cases, res)):
         tag = f"{c['api']}:D{c['D']}:{c['mode']}:{'const' if isinstance(c['padding'], float) else c['padding']}:N{len(c['data'])}" + \
-              (":per-image" if len(c["src"]) > 1 else "")
+              (":per-image" if len(c["src"]) > 1 else "") + (":shared-target" if len(c["src"]) > 1 and len(c.get("tgt") or []) == 1 else "")
         dist[tag] = dist.get(tag, 0) + 1
         if "error" in r:
             failures.append({"case": _brief(c), "impl": r, "why": "implementation raised where the model is defined"})
